@@ -304,10 +304,15 @@ func (p *Path) tryMergeCall(fn *ssa.Function, args []Value, env []Value) (res Va
 	}
 	w := &writeLog{vals: map[*Value]Value{}}
 	steps0 := p.steps
+	calls0 := make(map[*ssa.Function]int, len(p.calls))
+	for f, c := range p.calls {
+		calls0[f] = c
+	}
 	defer func() {
 		if r := recover(); r != nil {
 			if _, isBail := r.(mergeBail); isBail {
 				p.steps = steps0
+				p.calls = calls0 // the abandoned attempt must not count as calls (vp_Calls)
 				res, ok = nil, false
 				return
 			}
@@ -330,7 +335,9 @@ func (p *Path) mergeExec(fn *ssa.Function, args []Value, env []Value, base *smt.
 	if !mi.ok {
 		panic(mergeBail{"callee not mergeable"})
 	}
-	p.calls[fn]++
+	if depth > 0 {
+		p.calls[fn]++ // (the outermost merged call was counted by callSSA)
+	}
 	if p.res.Funcs != nil {
 		p.res.Funcs[fn.String()] = true
 	}
